@@ -312,6 +312,7 @@ func (g *sgen) stmt(depth int) {
 			vn = g.pickName()
 		}
 		form := g.rng.Intn(4)
+		assigned := ""
 		elems := []string{"10", "20", "30"}[:1+g.rng.Intn(3)]
 		coll := "[]int{" + strings.Join(elems, ", ") + "}"
 		if v, ok := g.anyVar(); ok && g.rng.Intn(2) == 0 {
@@ -332,7 +333,7 @@ func (g *sgen) stmt(depth int) {
 			g.line("\ttr.U(%s)", vn)
 			g.feats["range-define"] = true
 		default:
-			// '=' form assigns to existing variables
+			// '=' form assigns to existing variables (value-only, key-only, key and value)
 			w, ok := g.writable()
 			if !ok {
 				g.push()
@@ -341,8 +342,20 @@ func (g *sgen) stmt(depth int) {
 				g.line("\ttr.U(%s)", kn)
 			} else {
 				g.push()
-				g.line("for _, %s = range %s {", w.name, coll)
+				switch g.rng.Intn(3) {
+				case 0:
+					g.line("for _, %s = range %s {", w.name, coll)
+				case 1:
+					g.line("for %s = range %s {", w.name, coll)
+				default:
+					if w2, ok2 := g.writable(); ok2 && w2.name != w.name {
+						g.line("for %s, %s = range %s {", w.name, w2.name, coll)
+					} else {
+						g.line("for %s = range %s {", w.name, coll)
+					}
+				}
 				g.feats["range-assign"] = true
+				assigned = w.name
 			}
 		}
 		g.inLoop++
@@ -350,6 +363,10 @@ func (g *sgen) stmt(depth int) {
 		g.inLoop--
 		g.line("}")
 		g.pop()
+		if assigned != "" {
+			// the value the '=' form left in the variable is observable after the loop
+			g.line("tr.R(%d, %s)", g.nid(), assigned)
+		}
 	case r < 93:
 		// switch with shadowing initialiser / type switch with binding
 		name := g.pickName()
